@@ -24,6 +24,9 @@ pub struct Heading {
     pub line: usize,
 }
 
+/// stands in a link's `text` for inline markup met inside it (emphasis, strong, strikethrough, code span, math, inline HTML)
+pub const MARKUP: char = '⁂';
+
 #[derive(Clone, Debug, PartialEq)]
 pub struct LinkOcc {
     /// byte offset of the link's first character within its line
@@ -325,6 +328,10 @@ pub fn read(text: &str, dir: &str) -> Reading {
                     link_stack.push((r.line_of(range.start), dest_url.to_string(), "image".to_string(), String::new(), false));
                 }
                 Tag::Emphasis | Tag::Strong | Tag::Strikethrough => {
+                    // markup inside a link's text is part of what the link's text *is*: a text that is a title carries none
+                    for l in link_stack.iter_mut() {
+                        l.3.push(MARKUP);
+                    }
                     if depth_inline == 0 {
                         top_inlines += 1;
                         last_top_was_link = false;
@@ -459,6 +466,7 @@ pub fn read(text: &str, dir: &str) -> Reading {
                     last_top_was_link = false;
                 }
                 for l in link_stack.iter_mut() {
+                    l.3.push(MARKUP);
                     l.3.push_str(&t);
                 }
                 if skip_text_depth == 0 {
